@@ -279,6 +279,14 @@ func ruleL14(p *Prog, r *Report) {
 				}
 			}
 			r.Decide(good, R, "fast-path-fits:"+p.Name(f), p.InstrPos(in), "the single-slab fast path is taken only when the real element size was checked against the slab size", "a root data slab is built directly from caller data without checking its real size against the slab size: an oversized slab would be created")
+			// the size handed over is the sum of the sizes of exactly the elements handed over
+			n++
+			okSum, why := sizeIsSumOverList(sz, c.Call.Args[len(c.Call.Args)-2])
+			if okSum {
+				r.Ok(R, "fast-path-size-is-sum:"+p.Name(f), p.InstrPos(in), "the element size handed to the direct build is accumulated from ByteSize() of every element placed in the list")
+			} else {
+				r.Bad(R, "fast-path-size-is-sum:"+p.Name(f), p.InstrPos(in), "the element size handed to the direct build is not the sum of ByteSize() over the elements placed in the list ("+why+"): the root slab would report a size that differs from the bytes written")
+			}
 		})
 	}
 	r.Floor(R, "direct-build call sites", 1, n)
@@ -443,4 +451,176 @@ func ruleL17(p *Prog, r *Report) {
 		})
 	}
 	r.Floor(R, "batch-builder level decisions", 8, n)
+}
+
+// sizeIsSumOverList: sz is a loop accumulator that starts at 0 and grows, once per iteration, by ByteSize() of
+// the very value that the same iteration places into list (indexed store into a slice made with the loop's trip
+// count, or append).
+func sizeIsSumOverList(sz, list ssa.Value) (bool, string) {
+	ph, ok := canonConv(sz).(*ssa.Phi)
+	if !ok || len(ph.Edges) != 2 {
+		return false, "the size is not a loop accumulator"
+	}
+	var step *ssa.BinOp
+	zero := false
+	for _, e := range ph.Edges {
+		if k, isK := constInt(e); isK && k == 0 {
+			zero = true
+			continue
+		}
+		if bo, isB := e.(*ssa.BinOp); isB && bo.Op == token.ADD {
+			step = bo
+		}
+	}
+	if !zero || step == nil {
+		return false, "the accumulator does not start at 0 and grow by addition"
+	}
+	var addend ssa.Value
+	switch {
+	case step.X == ssa.Value(ph):
+		addend = step.Y
+	case step.Y == ssa.Value(ph):
+		addend = step.X
+	default:
+		return false, "the accumulator's step does not add to the previous value"
+	}
+	call, ok := canonConv(addend).(*ssa.Call)
+	if !ok || calleeName(call) != "ByteSize" {
+		return false, "the amount added per iteration is not ByteSize() of an element"
+	}
+	elem := callRecv(call)
+	if elem == nil {
+		return false, "ByteSize() receiver not identified"
+	}
+	strip := func(v ssa.Value) ssa.Value {
+		for {
+			v = canon(v)
+			switch x := v.(type) {
+			case *ssa.MakeInterface:
+				v = x.X
+				continue
+			case *ssa.ChangeType:
+				v = x.X
+				continue
+			}
+			return v
+		}
+	}
+	elemC := strip(elem)
+	header := ph.Block()
+	inLoop := func(b *ssa.BasicBlock) bool {
+		// b is in the loop of header: header dominates b and b reaches header
+		if !header.Dominates(b) {
+			return false
+		}
+		seen := map[*ssa.BasicBlock]bool{}
+		var dfs func(x *ssa.BasicBlock) bool
+		dfs = func(x *ssa.BasicBlock) bool {
+			if x == header {
+				return true
+			}
+			if seen[x] {
+				return false
+			}
+			seen[x] = true
+			for _, s := range x.Succs {
+				if dfs(s) {
+					return true
+				}
+			}
+			return false
+		}
+		for _, s := range b.Succs {
+			if dfs(s) {
+				return true
+			}
+		}
+		return false
+	}
+	listC := canon(list)
+	// form 1: indexed store into a slice made with the trip count
+	if mk, ok := listC.(*ssa.MakeSlice); ok {
+		placed := false
+		var idx ssa.Value
+		eachInstr(step.Parent(), func(in ssa.Instruction) {
+			st, ok := in.(*ssa.Store)
+			if !ok || st.Block() != step.Block() {
+				return
+			}
+			ia, ok := st.Addr.(*ssa.IndexAddr)
+			if !ok || canon(ia.X) != listC {
+				return
+			}
+			if strip(st.Val) == elemC || sameValue(strip(st.Val), elemC) {
+				placed = true
+				idx = ia.Index
+			}
+		})
+		if !placed {
+			return false, "the element whose size is added is not the one stored into the list in that iteration"
+		}
+		// the loop runs over every index of the list: header condition idx < N with N == len the slice was made with
+		ifi, ok := header.Instrs[len(header.Instrs)-1].(*ssa.If)
+		if !ok {
+			return false, "loop shape not recognised"
+		}
+		bo, ok := ifi.Cond.(*ssa.BinOp)
+		if !ok || bo.Op != token.LSS || !sameValue(bo.X, idx) || !sameValue(bo.Y, mk.Len) {
+			return false, "the loop does not visit every index of the list (bound differs from the length the list was made with)"
+		}
+		// the index starts at 0 and advances by one
+		if ib, ok := canon(idx).(*ssa.BinOp); !ok || ib.Op != token.ADD {
+			return false, "index step not recognised"
+		} else if k, isK := constInt(ib.Y); !isK || k != 1 {
+			return false, "index does not advance by one"
+		} else if ip, ok := ib.X.(*ssa.Phi); !ok || ip.Block() != header {
+			return false, "index is not the loop counter"
+		} else {
+			startOK := false
+			for _, e := range ip.Edges {
+				if k, isK := constInt(e); isK && k == -1 {
+					startOK = true
+				}
+			}
+			if !startOK {
+				return false, "the loop does not start at the first element"
+			}
+		}
+		return true, ""
+	}
+	// form 2: append in the same iteration
+	if lp, ok := listC.(*ssa.Phi); ok && lp.Block() == header {
+		for _, e := range lp.Edges {
+			c, ok := canon(e).(*ssa.Call)
+			if !ok {
+				continue
+			}
+			if bi, ok := c.Call.Value.(*ssa.Builtin); !ok || bi.Name() != "append" || len(c.Call.Args) != 2 {
+				continue
+			}
+			if canon(c.Call.Args[0]) != ssa.Value(lp) || !inLoop(c.Block()) || c.Block() != step.Block() {
+				continue
+			}
+			// append(list, []T{e}...): the variadic slice holds the element
+			if sl, ok := canon(c.Call.Args[1]).(*ssa.Slice); ok {
+				if al, ok := sl.X.(*ssa.Alloc); ok {
+					found := false
+					for _, ref := range *al.Referrers() {
+						if ia, ok := ref.(*ssa.IndexAddr); ok {
+							for _, r2 := range *ia.Referrers() {
+								if st, ok := r2.(*ssa.Store); ok && (strip(st.Val) == elemC || sameValue(strip(st.Val), elemC)) {
+									found = true
+								}
+							}
+						}
+					}
+					if found {
+						return true, ""
+					}
+				}
+			}
+		}
+		return false, "the element whose size is added is not the one appended in that iteration"
+	}
+	return false, "the list is neither filled index by index nor by append in the accumulating loop"
 }
